@@ -1,4 +1,69 @@
 import RtcVerif.Model.C13
+import RtcVerif.Proofs.C13Lemmas
+/-!
+# C13 — aliases are transparent: any alias name addresses the same quantity, signed
+
+All theorems are for an arbitrary alias relation `r : VName → VName × Sign`
+(`AliasRelation.canonical_signed`), an arbitrary dictionary state, and an arbitrary value type `V`
+whose unary minus is an involution (`LawfulNegVal`; numbers incl. nan/±inf, `Timeseries`, bound
+tuples — swapped and negated —, lists are instances).  Where the law
+`r (r n).1 = ((r n).1, +)` is needed it is an explicit hypothesis (`Rel.Idem`).
+-/
 namespace RtcVerif.C13
-theorem stub : True := trivial
+open PyDict
+
+variable {V : Type} [NegVal V]
+
+/-! ## get after set through any alias pair -/
+
+/-- `__setitem__` rejects exactly the tuples that are not pairs, whatever the key. -/
+theorem C13_set_rejects_iff (r : Rel) (a : ADict V) (k : VName) (v : V) :
+    (a.set r k v = .error .assertion ↔ ok v = false) ∧
+    (ok v = true → ∃ a', a.set r k v = .ok a' ∧ a'.signedValues = a.signedValues) := by
+  unfold ADict.set
+  cases h : ok v <;> simp
+
+/-- **Get after set through any alias pair**: storing `v` through `k` and reading through any
+    `k'` with the same canonical name yields `v` with the product of the two signs applied
+    (a pair comes back swapped and negated under a relative minus); reading through a name of a
+    different quantity is unaffected. -/
+theorem C13_get_set [LawfulNegVal V] (r : Rel) (a a' : ADict V) (k : VName) (v : V)
+    (hset : a.set r k v = .ok a') :
+    (∀ k', (r k').1 = (r k).1 →
+        a'.get r k' = .ok (signed ((csigned r a.signedValues k).2 * (csigned r a.signedValues k').2) v)) ∧
+    (∀ k', (r k').1 ≠ (r k).1 → a'.get r k' = a.get r k') := by
+  unfold ADict.set at hset
+  split at hset
+  · injection hset with hset
+    subst hset
+    constructor
+    · intro k' hc
+      have h1 : (csigned r a.signedValues k').1 = (csigned r a.signedValues k).1 := by
+        unfold csigned; split <;> exact hc
+      simp only [ADict.get, h1, get_set_same, signed_signed, Sign.hmul_eq]
+    · intro k' hc
+      have h1 : (csigned r a.signedValues k).1 ≠ (csigned r a.signedValues k').1 := by
+        unfold csigned; split <;> exact fun e => hc e.symm
+      simp only [ADict.get, get_set_other _ _ _ _ h1]
+  · cases hset
+
+/-- in a signed dictionary the sign applied is the product of the two alias signs -/
+theorem C13_get_set_signed [LawfulNegVal V] (r : Rel) (a a' : ADict V) (k k' : VName) (v : V)
+    (hs : a.signedValues = true) (hset : a.set r k v = .ok a') (hc : (r k').1 = (r k).1) :
+    a'.get r k' = .ok (signed ((r k).2 * (r k').2) v) := by
+  have := (C13_get_set r a a' k v hset).1 k' hc
+  simpa [csigned, hs] using this
+
+/-- **Unsigned dictionaries** (nominals, variable types) return exactly what was stored, through
+    any alias, negated or not — for *every* value type (no minus is ever applied). -/
+theorem C13_unsigned_positive (r : Rel) (a a' : ADict V) (k k' : VName) (v : V)
+    (hu : a.signedValues = false) (hset : a.set r k v = .ok a') (hc : (r k').1 = (r k).1) :
+    a'.get r k' = .ok v := by
+  unfold ADict.set at hset
+  split at hset
+  · injection hset with hset
+    subst hset
+    simp [ADict.get, csigned, hu, hc, get_set_same]
+  · cases hset
+
 end RtcVerif.C13
